@@ -43,6 +43,26 @@ type Case struct {
 	Pool    []string `json:"pool"`
 	Methods []string `json:"methods"`
 	Ops     []Op     `json:"ops"`
+	// Tight: the router is created with the smallest parameter limits the pool still satisfies (the largest number of
+	// wildcards and the longest wildcard name found in the pool); every pool pattern stays valid by the documentation
+	Tight bool `json:"tight_limits,omitempty"`
+}
+
+// TightLimits returns the largest wildcard count and the longest wildcard name (in bytes) of the patterns.
+func TightLimits(pool []string) (params, keyBytes int) {
+	for _, p := range pool {
+		n := 0
+		for i := 0; i < len(p); i++ {
+			if p[i] == '{' {
+				if j := strings.IndexByte(p[i:], '}'); j > 0 {
+					n++
+					keyBytes = max(keyBytes, j-1)
+				}
+			}
+		}
+		params = max(params, n)
+	}
+	return max(params, 1), max(keyBytes, 1)
 }
 
 func (c Case) String() string {
@@ -82,6 +102,31 @@ func GenPool(r *rand.Rand, n int, fanout bool) []string {
 			}
 			return add(p)
 		})
+	}
+	// structural families the trie-growing generator rarely produces
+	switch r.IntN(6) {
+	case 0:
+		// a node with several children that have distinct first bytes (registered one by one, in any order, by the
+		// histories): children slices grow, are re-sorted and shrink
+		b := "/s/"
+		letters := []byte("abcdefghijkm")
+		r.Shuffle(len(letters), func(i, j int) { letters[i], letters[j] = letters[j], letters[i] })
+		for _, c := range letters[:5+r.IntN(6)] {
+			p := b + string(c) + gen.Lits[r.IntN(len(gen.Lits))]
+			if r.IntN(4) == 0 {
+				p += "/{p9}"
+			}
+			if valid := func() bool { _, _, err := parse(scratch, p); return err == nil }(); valid {
+				add(p)
+			}
+		}
+	case 1:
+		// two infix catch-alls in one node key, with children below
+		for _, p := range []string{"/w/*{c1}/b/*{c3}/c/one", "/w/*{c1}/b/*{c3}/c/two", "/w/*{c1}/b/*{c3}/c/one/more", "/w/*{c1}/b/*{c3}/c/", "/w/*{c1}/b", "/w/*{c1}/b/*{c3}/c/{p5}"} {
+			if r.IntN(5) > 0 {
+				add(p)
+			}
+		}
 	}
 	// patterns that end inside / exactly at the edges the others create: truncations and common prefixes
 	base := len(pool)
@@ -338,6 +383,17 @@ func GenFull(r *rand.Rand, c *Case, n int, txnMode int) {
 	GenOps(r, c, len(c.Ops)+n, txnMode, false)
 }
 
+// GenPartial registers, one operation at a time and in random order, a random part of the pool for the first method
+// (each pattern with probability num/den): nodes are left with some of their possible children, so that later writes
+// add siblings before, between and after existing ones.
+func GenPartial(r *rand.Rand, c *Case, num, den int) {
+	for _, i := range r.Perm(len(c.Pool)) {
+		if r.IntN(den) < num {
+			c.Ops = append(c.Ops, Op{Kind: "handle", Method: c.Methods[0], Pattern: c.Pool[i]})
+		}
+	}
+}
+
 // ErrClass maps a fox error to the model's vocabulary.
 func ErrClass(err error) string {
 	switch {
@@ -383,9 +439,14 @@ type World struct {
 	Methods   []string
 	Problems  []string // mismatches found by Apply
 	LastWant  string   // outcome the model expected for the last applied write ("" = success)
+	toks      map[string]*ref.Pattern
 }
 
 func NewWorld(c Case, opts ...fox.GlobalOption) *World {
+	if c.Tight {
+		mp, mk := TightLimits(c.Pool)
+		opts = append(opts[:len(opts):len(opts)], fox.WithMaxRouteParams(uint16(mp)), fox.WithMaxRouteParamKeyBytes(uint16(mk)))
+	}
 	f, err := fox.New(opts...)
 	if err != nil {
 		panic(err)
@@ -582,6 +643,59 @@ func (w *World) Expect(t *ref.Table) string {
 		fmt.Fprintf(&sb, "prefix %q=%v\n", pre, got)
 	}
 	return sb.String()
+}
+
+// RoutingProblem checks that the viewer ROUTES like the model table: for every other pool pattern, the request
+// instantiated from it must be resolved by Reverse to the pattern the direct-match reference selects among the
+// patterns the model holds for that method (exact reads such as Has/Route/Iter can be right while lookups walk a
+// stale or half-updated structure). Requests the reference leaves unspecified are skipped. "" means no problem.
+func (w *World) RoutingProblem(v Viewer, t *ref.Table) string {
+	rv, ok := v.(interface {
+		Reverse(method, host, path string) (*fox.Route, bool)
+	})
+	if !ok || v == nil {
+		return ""
+	}
+	if w.toks == nil {
+		w.toks = map[string]*ref.Pattern{}
+	}
+	for _, m := range t.Methods() {
+		names := t.Patterns(m)
+		pats := make([]*ref.Pattern, len(names))
+		for i, n := range names {
+			tk := w.toks[n]
+			if tk == nil {
+				tk = ref.Tokenize(n)
+				w.toks[n] = tk
+			}
+			pats[i] = tk
+		}
+		for i, p := range w.Universe {
+			if i%2 == 1 {
+				continue
+			}
+			host, path := instantiate(p)
+			want := ref.LookupDirect(pats, host, path)
+			full := ref.Lookup(pats, host, path)
+			if want.Unspec || full.Unspec {
+				continue
+			}
+			got, tsr := rv.Reverse(m, host, path)
+			gp := ""
+			if got != nil && !tsr {
+				gp = got.Pattern()
+			}
+			// the one case where a direct path-only match must not be taken (a slash-adjusted hostname route exists) is
+			// C08's rule and not judged here (same exemption as C01)
+			if gp == "" && want.Pattern != "" && full.Tsr && full.ViaHost {
+				continue
+			}
+			if gp != want.Pattern {
+				return fmt.Sprintf("Reverse(%s, %q, %q) resolves to %q, the reference matcher over the model's routes %v selects %q", m, host, path, gp, names, want.Pattern)
+			}
+		}
+	}
+	return ""
 }
 
 func (w *World) allMethods() []string {
